@@ -126,6 +126,13 @@ def check_multipart(mp_dump, truth, params, errs, prefix='mp', put_method=False)
             if g['file_len'] != len(e['data']):
                 errs.append((prefix + '_file_len', 'part %d file length %d expected %d' % (i, g['file_len'], len(e['data']))))
             file_bytes += e['data']
+            if g.get('disk') is not None:
+                # the part was also extracted to disk: [length, FNV-1a of the content]
+                h = 0xcbf29ce484222325
+                for c in e['data']:
+                    h = ((h ^ c) * 0x100000001b3) & 0xffffffffffffffff
+                if g['disk'][0] != len(e['data']) or int(g['disk'][1], 16) != h:
+                    errs.append((prefix + '_file_on_disk', 'part %d: the extracted file holds %d bytes (hash %s), %d bytes encoded' % (i, g['disk'][0], g['disk'][1], len(e['data']))))
         gct = g['ct']
         if (gct or None) != (e['ctype'] or None):
             errs.append((prefix + '_part_ctype', 'part %d (%s) content type %r expected %r' % (i, 'file' if e['type'] == PART_FILE else 'text', gct, e['ctype'])))
